@@ -7,6 +7,7 @@ import (
 	"verif/harness/core"
 	"verif/harness/dbx"
 	"verif/harness/faultfs"
+	"verif/harness/keys"
 )
 
 // unsyncedInodes counts the inodes that have data operations not yet covered by a sync in log[0:upto].
@@ -25,16 +26,44 @@ func unsyncedInodes(log []faultfs.Op, upto int) int {
 
 // C09: a cleanly closed database is a durable checkpoint.
 func propC09(ch core.Chooser, st *core.Stats) error {
-	_, ukeys := drawUniverse(ch)
+	// index-heavy variant (drawn): a universe with a 45-key bucket chain is inserted completely in
+	// the first session, so that overflow buckets exist and are made durable by its Close; the
+	// later sessions then only rewrite existing index buckets (overwrites, deletes, re-inserts
+	// into freed slots) without allocating new ones - what Close has to flush for them is the
+	// in-place modification of index files
+	indexHeavy := core.Pct(ch, "index_heavy", 35)
+	var ukeys []string
+	if indexHeavy {
+		seed := uint32(ch.Int("hashseed", 0, 1<<30))
+		pinSeed(seed)
+		u := keys.Build(seed, keys.Spec{Identical: 1, LowBits16: 45, LowBits2: 4, Plain: 6, Variant: uint32(ch.Int("univariant", 0, 3))})
+		for _, k := range u.Keys {
+			ukeys = append(ukeys, string(k))
+		}
+	} else {
+		_, ukeys = drawUniverse(ch)
+	}
 	cfg := dbx.DrawConfig(ch, []int{600, 1024, 2048, 4096, 1 << 20})
+	if indexHeavy && cfg.SegSize < 2048 {
+		cfg.SegSize = 2048
+	}
 	cfg.SyncWrites = core.Bool(ch, "syncwrites")
-	ch.Note("config: %s universe=%d keys", cfg, len(ukeys))
+	ch.Note("config: %s universe=%d keys index_heavy=%v", cfg, len(ukeys), indexHeavy)
 	s := newFsess(ch, st, nil, cfg, ukeys, map[string]string{})
 	s.hotCold = core.Pct(ch, "hotcold", 30)
 	if err := s.open(); err != nil {
 		return err
 	}
 	sessions := ch.Int("sessions", 1, 3)
+	if indexHeavy {
+		sessions = ch.Int("sessions_ih", 2, 3)
+		for _, k := range ukeys {
+			if err := s.put(k, core.PickInt(ch, "ih_vlen", []int{1, 5, 20})); err != nil {
+				return err
+			}
+		}
+		st.Count("histories_index_heavy", 1)
+	}
 	lastCloseStart := 0
 	for i := 0; i < sessions; i++ {
 		ch.Note("== session %d", i)
